@@ -239,12 +239,19 @@ theorem C10_inline_import_equiv_partial (cfg : Cfg) (hf : 0 < cfg.envFuel) (hv :
 /-- A placeholder `{$NAME}` inside a token is replaced by the variable's value (unset = empty): for every text
 `pre{$NAME}post` whose other bytes, name and value are free of `{` (a value that itself contains a placeholder
 is expanded again by the real code — and a value that contains its own placeholder is finding F19).
-The `{%NAME%}` form is covered by the correspondence streams only. -/
+Nested and adjacent placeholders are covered by the correspondence streams only. -/
 theorem C10_env_replaced (env : Env) (pre name post : Bytes) (fuel : Nat) (hfuel : 2 ≤ fuel)
     (h1 : (0x7B : UInt8) ∉ pre) (h2 : (0x7B : UInt8) ∉ name) (h3 : (0x7B : UInt8) ∉ post)
     (h4 : (0x7B : UInt8) ∉ getenv env name) (h5 : (0x7D : UInt8) ∉ name) (h6 : name ≠ []) :
     replaceEnvVars env fuel (dollarRef pre name post) = some (pre ++ getenv env name ++ post) :=
   replaceEnvVars_dollar env pre name post fuel hfuel h1 h2 h3 h4 h5 h6
+
+/-- The Windows-style placeholder `{%NAME%}` likewise (the name additionally free of `%` and `}`). -/
+theorem C10_env_replaced_percent (env : Env) (pre name post : Bytes) (fuel : Nat) (hfuel : 2 ≤ fuel)
+    (h1 : (0x7B : UInt8) ∉ pre) (h2 : (0x7B : UInt8) ∉ name) (h3 : (0x7B : UInt8) ∉ post)
+    (h4 : (0x7B : UInt8) ∉ getenv env name) (h5 : (0x7D : UInt8) ∉ name) (h5' : (0x25 : UInt8) ∉ name) (h6 : name ≠ []) :
+    replaceEnvVars env fuel (percentRef pre name post) = some (pre ++ getenv env name ++ post) :=
+  replaceEnvVars_percent env pre name post fuel hfuel h1 h2 h3 h4 h5 h5' h6
 
 /-- non-vacuity: `a{$X}:80` with X = `hi` -/
 example : replaceEnvVars [([0x58], [0x68, 0x69])] 5 (dollarRef [0x61] [0x58] [0x3A, 0x38, 0x30]) = some [0x61, 0x68, 0x69, 0x3A, 0x38, 0x30] :=
